@@ -47,10 +47,10 @@ def extract(repo=None, target=None, features=None, tag='facts', crate='pearl'):
     repo = repo or REPO
     os.makedirs(CACHE, exist_ok=True)
     build_driver()
-    target = target or os.path.join(CACHE, 'target')
+    target = target or os.environ.get('PEARL_VERIF_TARGET') or os.path.join(CACHE, 'target')
     nonce = '%d-%d-%s' % (os.getpid(), int(time.time() * 1000), hashlib.sha1(os.urandom(8)).hexdigest()[:8])
     out = os.path.join(CACHE, '%s-%s.json' % (tag, nonce))
-    lockf = open(os.path.join(CACHE, 'extract.lock'), 'w')
+    lockf = open(os.path.join(CACHE, 'extract-%s.lock' % hashlib.sha1(target.encode()).hexdigest()[:8]), 'w')
     fcntl.flock(lockf, fcntl.LOCK_EX)
     try:
         # cargo's freshness cache would skip the wrapper: drop pearl's fingerprints
